@@ -213,6 +213,17 @@ class StackSim:
             note_multi(listener)
             return orig_watch_all(listener)
         disc.watch_service, disc.watch_all_services = watch_service, watch_all_services
+        # a subscribe call for ids that are already requested from the same server (model: ghost event GDupSub - outside C14's quantification)
+        sub = self.prot.subscriber
+        orig_subscribe = sub.subscribe_eventgroup
+
+        def subscribe_eventgroup(eventgroup, endpoint):
+            ids = (eventgroup.service_id, eventgroup.instance_id, eventgroup.major_version, eventgroup.eventgroup_id)
+            if any((g.service_id, g.instance_id, g.major_version, g.eventgroup_id) == ids and tuple(ep) == tuple(endpoint)
+                   for g, ep in sub.subscribeentries):
+                self.ghost.append([self.now(), 6, addr_id(endpoint)])
+            return orig_subscribe(eventgroup, endpoint)
+        sub.subscribe_eventgroup = subscribe_eventgroup
         # an exception that escapes a loop callback (e.g. a collector flush that cannot be encoded) is recorded where and when it happens
         self.loop.set_exception_handler(lambda loop, ctx: self.emit([5, conv.err_code(ctx.get("exception")) if ctx.get("exception") else 98]))
         self.clients = {}
